@@ -435,6 +435,7 @@ def fold_tseytin(ck: Checker, R: str):
     ov = gate_overrides(den)
     types = {t.var: t for t in ov.values() if isinstance(t, GateTypeVal)}
     it = Interp(repo, overrides=ov, max_steps=2_000_000, max_depth=120)
+    it.allow_while = True   # an explicit-stack version of the gate walk is a worklist loop over the model circuit
     mod = repo.mod(TSEYTIN)
     fn = mod.func('tseytin_transformation')
     tf = RepoFunc(it, mod, fn)
@@ -456,13 +457,18 @@ def fold_tseytin(ck: Checker, R: str):
         every = [l for l, t, _ in spec if t != 'INPUT']
         if every and every != list(outs):
             variants.append((spec, every))
-    for spec, outs in variants:
+    # and once more with the input list re-ordered after construction (order_inputs / set_inputs): variable i+1 is the i-th
+    # entry of circuit.inputs, not the i-th INPUT gate added
+    variants = [(s_, o_, False) for s_, o_ in variants] + [(s_, o_, True) for s_, o_ in HANDMADE if sum(1 for x in s_ if x[1] == 'INPUT') >= 2]
+    for spec, outs, reorder in variants:
         c = build(types, spec, outs)
+        if reorder:
+            c._inputs = list(reversed(c._inputs))
         sels = [None] + [[k] for k in range(len(outs))] + ([[len(outs) - 1, 0]] if len(outs) > 1 else [])
         for sel in sels:
             n_runs += 1
             it.steps = 0
-            desc = f'{[(l, t) + tuple(o) for l, t, o in spec if t != "INPUT"]} outputs {outs}' + (f' selection {sel}' if sel is not None else '')
+            desc = f'{[(l, t) + tuple(o) for l, t, o in spec if t != "INPUT"]} outputs {outs}' + (f' selection {sel}' if sel is not None else '') + (f' (inputs re-ordered to {c._inputs})' if reorder else '')
             try:
                 cnf = clauses_of(tf(c) if sel is None else tf(c, list(sel)))
             except InterpRaise as e:
@@ -631,3 +637,103 @@ def fold_pipelines(ck: Checker, R: str):
                  '; '.join(probs[:2]), construct=f'pipeline {name}')
     ck.notes['pipeline_runs'] = n
     ck.assume('pipelines are folded over a bounded family of model circuits with oracle traversals; the constituent passes themselves are decided by C18.FOLD / C03.FOLD')
+
+
+# ---------------------------------------------------------------------------
+# the satisfiability query end to end (C05.SAT)
+
+
+class _ModelCNF:
+    def __init__(self, from_clauses=None, **k):
+        self.clauses = [list(c) for c in (from_clauses or [])]
+        self.same_object = from_clauses
+
+
+from .interp import Host as _Host
+
+
+class _HostCNF(_Host, _ModelCNF):
+    pass
+
+
+class _BruteSolver(_Host):
+    """Model solver: sound and complete by exhaustive search over the variables of the formula."""
+
+    log: list = []
+
+    def __init__(self, name=None, **k):
+        self.name = name
+        self.clauses = []
+        self.model = None
+        _BruteSolver.log.append(('new', name))
+
+    def __enter__(self):
+        return self
+
+    def __exit__(self, *a):
+        _BruteSolver.log.append(('closed',))
+        return False
+
+    def append_formula(self, cnf):
+        self.clauses += [list(c) for c in cnf.clauses]
+
+    def add_clause(self, clause):
+        self.clauses.append(list(clause))
+
+    def solve(self, assumptions=()):
+        vs = sorted({abs(l) for c in self.clauses for l in c} | {abs(l) for l in assumptions})
+        for bits in itertools.product((False, True), repeat=len(vs)):
+            a = dict(zip(vs, bits))
+            if all(a[abs(l)] == (l > 0) for l in assumptions) and all(any(a[abs(l)] == (l > 0) for l in c) for c in self.clauses):
+                self.model = [v if a[v] else -v for v in vs]
+                return True
+        self.model = None
+        return False
+
+    def get_model(self):
+        return self.model
+
+
+def fold_sat_query(ck: Checker, R: str):
+    """is_circuit_satisfiable / is_satisfiable / Cnf.from_circuit folded with a model solver (exhaustive search): the answer is
+    True exactly when some input assignment makes every output True, and a returned model satisfies the CNF and projects onto
+    such an assignment (inputs are variables 1..n)."""
+    repo = ck.repo
+    den = Denotations(repo)
+    ov = gate_overrides(den)
+    types = {t.var: t for t in ov.values() if isinstance(t, GateTypeVal)}
+    ov['pysat.formula.CNF'] = _HostCNF
+    ov['pysat.solvers.Solver'] = _BruteSolver
+    it = Interp(repo, overrides=ov, max_steps=4_000_000, max_depth=120)
+    it.allow_while = True
+    sm = repo.mod('cirbo.sat.sat')
+    f = RepoFunc(it, sm, sm.func('is_circuit_satisfiable'))
+    probs = []
+    n = 0
+    fam = [x for x in HANDMADE] + family(ck.tier)[len(HANDMADE):len(HANDMADE) + (25 if ck.tier == 'quick' else 200)]
+    for spec, outs in fam:
+        n += 1
+        c = build(types, spec, outs)
+        desc = f'{[(l, t) + tuple(o) for l, t, o in spec if t != "INPUT"]} outputs {list(outs)}'
+        it.steps = 0
+        _BruteSolver.log = []
+        try:
+            res = f(c)
+        except InterpRaise as e:
+            probs.append(f'raises {e.exc_name} on {desc}')
+            continue
+        ans, model = res._d.get('answer'), res._d.get('model')
+        sat_a = [vals for vals in itertools.product((False, True), repeat=len(c._inputs)) if all(c.evaluate(o, dict(zip(c._inputs, vals))) for o in outs)]
+        if bool(ans) != bool(sat_a):
+            probs.append(f'answers {ans} although {"an assignment" if sat_a else "no assignment"} makes every output True, on {desc}')
+        elif ans:
+            proj = tuple((i + 1) in model for i in range(len(c._inputs)))
+            if proj not in sat_a:
+                probs.append(f'the returned model projects onto inputs {proj}, which do not make every output True, on {desc}')
+        elif model is not None:
+            probs.append(f'an unsatisfiable query returns the model {model} on {desc}')
+        if len(probs) > 3:
+            break
+    ck.check(not probs, R, sm, sm.func('is_circuit_satisfiable'), f'is_circuit_satisfiable folded end to end with a model solver over {n} model circuits: True exactly when some assignment makes all outputs True; '
+             'a returned model projects (variables 1..n = inputs) onto such an assignment; no model for an unsatisfiable query', '; '.join(probs[:2]), construct='is_circuit_satisfiable over the circuit family')
+    ck.assume('the satisfiability query is folded with a model solver (exhaustive search) over a bounded family of model circuits; the real solver is assumed sound and complete')
